@@ -12,6 +12,7 @@ LEVEL = 'exploration'
 SHARDS = {'quick': 4, 'thorough': 16}
 TIMEOUT = {'quick': 300, 'thorough': 3000}
 N_HIST = {'quick': 3000, 'thorough': 250000}
+N_BIG = {'quick': 12, 'thorough': 300}          # scale regime: products > 4096 combinations, > 1000 parameters
 CAP = 2000
 RULE = ('cases: seeded declaration histories: 0-5 parameters declared through the constructor dict and/or add_parameter, interleaved with '
         'remove_parameter and invalid ops (non-str names 5/None/b"x"/("a",)/1.5, duplicate names, unknown removals); values: int/float/'
@@ -20,12 +21,12 @@ RULE = ('cases: seeded declaration histories: 0-5 parameters declared through th
         'slowest, every element kept (== and identity for container elements), each dict holding exactly the declared names; two '
         'builds equal but made of distinct dict objects; mutating a result changes nothing; invalid ops raise AttributeError / '
         'KeyError and leave build() unchanged. Non-trivial history: product of >=2 factors of length >=2 with a repeated value or a '
-        'string/scalar factor, plus >=1 rejected op; distinct by (declaration signature, op trace). Products capped at 2000.')
+        'string/scalar factor, plus >=1 rejected op; distinct by (declaration signature, op trace). Products capped at 2000 in the histories; a scale regime builds products of 4 097-10 000 combinations and declarations of 1 100-2 100 parameters.')
 ASSUMPTIONS = ['collections are re-iterable (no one-shot iterators)', 'values compare with == (no NaN)']
 FLOORS = {'quick': {'builds_compared': 10000, 'empty_factor_products': 500, 'no_parameter_products': 100, 'string_factors': 800,
                     'scalar_factors': 800, 'repeated_value_factors': 600, 'numpy_factors': 600, 'range_factors': 600,
                     'rejected_nonstr_name': 1000, 'rejected_duplicate': 770, 'rejected_unknown_removal': 1000,
-                    'sibling_list_checks': 500, 'constructor_declarations': 740, 'rejected_constructor': 100, 'reach:Batching.ParameterList.build': 10000},
+                    'sibling_list_checks': 500, 'big_builds': 6, 'declarations_with_1000_plus_parameters': 3, 'constructor_declarations': 740, 'rejected_constructor': 100, 'reach:Batching.ParameterList.build': 10000},
           'thorough': {'builds_compared': 1000000}}
 EXHAUSTIVE = {}
 
@@ -218,14 +219,52 @@ def case_history(ctx, case):
                     'combinations': len(product(decl)), 'first': product(decl)[:3]})
 
 
+
+def case_big(ctx, case):
+    """Scale regime: products of 5 000-40 000 combinations, and declarations with more than a thousand parameters (most of them single
+    values)."""
+    import ECAgent.Batching as batching
+    rng = ctx.rng('big', case['i'])
+    if case['i'] % 2 == 0:
+        lens = rng.choice([[100, 100], [5, 90, 12], [70, 70], [3, 41, 37], [2, 2, 2, 2, 2, 2, 2, 2, 2, 2, 2, 2, 2], [4097], [1, 5000, 1]])
+        decl = []
+        for j, L in enumerate(lens):
+            vals = [rng.choice([j * 1000 + i, f'v{j}_{i}']) for i in range(L)]
+            if L >= 3 and rng.random() < 0.5:
+                vals[1] = vals[0]
+            decl.append((f'p{j}', rng.choice([vals, tuple(vals)]) if L > 1 else vals[0]))
+        if rng.random() < 0.5:
+            decl.insert(rng.randrange(len(decl) + 1), ('label', 'run-a'))
+    else:
+        k = rng.choice([1100, 1500, 2100])
+        decl = [(f'q{j}', j) for j in range(k)]
+        for j in rng.sample(range(k), 3):
+            decl[j] = (f'q{j}', [j, -j, j + 0.5][:rng.randint(2, 3)])
+        ctx.count('declarations_with_1000_plus_parameters')
+    if rng.random() < 0.5:
+        pl = batching.ParameterList(dict(decl))
+    else:
+        pl = batching.ParameterList()
+        for name, v in decl:
+            pl.add_parameter(name, v)
+    got = compare(ctx, pl, decl, f'large declaration ({len(decl)} parameters)')
+    check(len({id(d) for d in got}) == len(got), 'large build returned shared dict objects')
+    ctx.count('big_builds')
+    ctx.count('big_combinations', len(got))
+    ctx.distinct(('big', len(decl), len(got), case['i']))
+
+
 def run_case(ctx, case):
-    case_history(ctx, case)
+    (case_big if case.get('kind') == 'big' else case_history)(ctx, case)
 
 
 def run(ctx):
     for i in range(N_HIST[ctx.tier]):
         if ctx.mine(i) and not ctx.full():
             ctx.run_case({'kind': 'hist', 'i': i}, run_case)
+    for i in range(N_BIG[ctx.tier]):
+        if ctx.mine(i) and not ctx.full():
+            ctx.run_case({'kind': 'big', 'i': i}, run_case)
 
 
 def replay(ctx, case):
